@@ -4,6 +4,9 @@ Blocks are connected with streams. A block can have zero or more input
 streams, and write to zero or more output streams.
 */
 use std::collections::VecDeque;
+#[cfg(rustradio_verif)]
+use crate::verif::sync::{Arc, Condvar, Mutex};
+#[cfg(not(rustradio_verif))]
 use std::sync::{Arc, Condvar, Mutex};
 
 use crate::circular_buffer;
@@ -97,6 +100,12 @@ pub trait StreamWait {
 
     #[must_use]
     fn closed(&self) -> bool;
+
+    /// Identity of the underlying stream (verification builds only).
+    #[cfg(rustradio_verif)]
+    fn verif_id(&self) -> usize {
+        0
+    }
 }
 impl<T: Copy> StreamWait for ReadStream<T> {
     fn wait(&self, need: usize) -> bool {
@@ -105,6 +114,10 @@ impl<T: Copy> StreamWait for ReadStream<T> {
     fn closed(&self) -> bool {
         self.refcount() == 1
     }
+    #[cfg(rustradio_verif)]
+    fn verif_id(&self) -> usize {
+        self.circ.verif_id()
+    }
 }
 impl<T: Copy> StreamWait for WriteStream<T> {
     fn wait(&self, need: usize) -> bool {
@@ -112,6 +125,10 @@ impl<T: Copy> StreamWait for WriteStream<T> {
     }
     fn closed(&self) -> bool {
         self.refcount() == 1
+    }
+    #[cfg(rustradio_verif)]
+    fn verif_id(&self) -> usize {
+        self.circ.verif_id()
     }
 }
 
@@ -167,6 +184,8 @@ impl<T: Copy> ReadStream<T> {
     #[must_use]
     pub fn eof(&self) -> bool {
         // Fast path.
+        #[cfg(rustradio_verif)]
+        crate::verif::named_point("rc");
         let refcount = Arc::strong_count(&self.circ);
         if refcount != 1 {
             return false;
@@ -181,6 +200,8 @@ impl<T: Copy> ReadStream<T> {
 
     #[must_use]
     pub(crate) fn refcount(&self) -> usize {
+        #[cfg(rustradio_verif)]
+        crate::verif::named_point("rc");
         Arc::strong_count(&self.circ)
     }
 }
@@ -238,6 +259,8 @@ impl<T: Copy> WriteStream<T> {
 
     #[must_use]
     pub(crate) fn refcount(&self) -> usize {
+        #[cfg(rustradio_verif)]
+        crate::verif::named_point("rc");
         Arc::strong_count(&self.circ)
     }
 }
@@ -250,6 +273,9 @@ impl<T: Copy> WriteStream<T> {
 /// Basically anything that GNU Radio would *not* call a message port.
 #[must_use]
 pub fn new_stream<T>() -> (WriteStream<T>, ReadStream<T>) {
+    #[cfg(rustradio_verif)]
+    let circ = Arc::new(circular_buffer::Buffer::new(crate::verif::stream_size()).unwrap());
+    #[cfg(not(rustradio_verif))]
     let circ = Arc::new(circular_buffer::Buffer::new(DEFAULT_STREAM_SIZE).unwrap());
     (WriteStream { circ: circ.clone() }, ReadStream { circ })
 }
@@ -262,6 +288,8 @@ pub struct NCReadStream<T> {
 impl<T> StreamWait for NCReadStream<T> {
     fn wait(&self, need: usize) -> bool {
         let (lock, cv) = &*self.q;
+        #[cfg(rustradio_verif)]
+        crate::verif::emit(format!("\"ev\":\"call\",\"op\":\"nc_wait\",\"m\":{},\"need\":{need}", lock.id()));
         let l = cv
             .wait_timeout_while(
                 lock.lock().unwrap(),
@@ -272,7 +300,13 @@ impl<T> StreamWait for NCReadStream<T> {
         l.0.len() < need && Arc::strong_count(&self.q) == 1
     }
     fn closed(&self) -> bool {
+        #[cfg(rustradio_verif)]
+        crate::verif::named_point("rc");
         Arc::strong_count(&self.q) == 1
+    }
+    #[cfg(rustradio_verif)]
+    fn verif_id(&self) -> usize {
+        self.q.0.id()
     }
 }
 
@@ -280,10 +314,18 @@ impl<T> StreamWait for NCWriteStream<T> {
     fn wait(&self, _need: usize) -> bool {
         // TODO: we should have a maximum, shouldn't we?
         // For now, as much room as you need.
+        #[cfg(rustradio_verif)]
+        crate::verif::named_point("rc");
         Arc::strong_count(&self.q) == 1
     }
     fn closed(&self) -> bool {
+        #[cfg(rustradio_verif)]
+        crate::verif::named_point("rc");
         Arc::strong_count(&self.q) == 1
+    }
+    #[cfg(rustradio_verif)]
+    fn verif_id(&self) -> usize {
+        self.q.0.id()
     }
 }
 
@@ -308,8 +350,12 @@ impl<T> NCReadStream<T> {
     #[must_use]
     pub fn pop(&self) -> Option<(T, Vec<Tag>)> {
         let (lock, cv) = &*self.q;
+        #[cfg(rustradio_verif)]
+        crate::verif::emit(format!("\"ev\":\"call\",\"op\":\"nc_pop\",\"m\":{}", lock.id()));
         // TODO: attach tags.
         let ret = lock.lock().unwrap().pop_front().map(|v| (v, Vec::new()));
+        #[cfg(rustradio_verif)]
+        crate::verif::emit(format!("\"ev\":\"ret\",\"op\":\"nc_pop\",\"m\":{},\"some\":{}", lock.id(), ret.is_some()));
         cv.notify_all();
         ret
     }
@@ -317,6 +363,8 @@ impl<T> NCReadStream<T> {
     /// Return true if there is nothing more ever to read from the stream.
     #[must_use]
     pub fn eof(&self) -> bool {
+        #[cfg(rustradio_verif)]
+        crate::verif::emit(format!("\"ev\":\"call\",\"op\":\"nc_eof\",\"m\":{}", self.q.0.id()));
         if !self.q.0.lock().unwrap().is_empty() {
             false
         } else {
@@ -332,6 +380,8 @@ impl<T> NCWriteStream<T> {
     /// TODO: Actually store the tags.
     pub fn push(&self, val: T, _tags: &[Tag]) {
         let (lock, cv) = &*self.q;
+        #[cfg(rustradio_verif)]
+        crate::verif::emit(format!("\"ev\":\"call\",\"op\":\"nc_push\",\"m\":{}", lock.id()));
         // TODO: attach tags.
         lock.lock().unwrap().push_back(val);
         cv.notify_all();
@@ -341,6 +391,78 @@ impl<T> NCWriteStream<T> {
 impl<T: Len> NCReadStream<T> {
     /// Get the size of the front packet.
     pub fn peek_size(&self) -> Option<usize> {
+        #[cfg(rustradio_verif)]
+        crate::verif::emit(format!("\"ev\":\"call\",\"op\":\"nc_peek\",\"m\":{}", self.q.0.id()));
         self.q.0.lock().unwrap().front().map(|e| e.len())
+    }
+}
+
+#[cfg(rustradio_verif)]
+impl<T> Drop for WriteStream<T> {
+    fn drop(&mut self) {
+        crate::verif::named_point("drop_write");
+        crate::verif::emit(format!(
+            "\"ev\":\"drop\",\"side\":\"w\",\"m\":{}",
+            self.circ.verif_id()
+        ));
+    }
+}
+#[cfg(rustradio_verif)]
+impl<T> Drop for ReadStream<T> {
+    fn drop(&mut self) {
+        crate::verif::named_point("drop_read");
+        crate::verif::emit(format!(
+            "\"ev\":\"drop\",\"side\":\"r\",\"m\":{}",
+            self.circ.verif_id()
+        ));
+    }
+}
+#[cfg(rustradio_verif)]
+impl<T> Drop for NCWriteStream<T> {
+    fn drop(&mut self) {
+        crate::verif::named_point("drop_write");
+        crate::verif::emit(format!(
+            "\"ev\":\"drop\",\"side\":\"w\",\"m\":{}",
+            self.q.0.id()
+        ));
+    }
+}
+#[cfg(rustradio_verif)]
+impl<T> Drop for NCReadStream<T> {
+    fn drop(&mut self) {
+        crate::verif::named_point("drop_read");
+        crate::verif::emit(format!(
+            "\"ev\":\"drop\",\"side\":\"r\",\"m\":{}",
+            self.q.0.id()
+        ));
+    }
+}
+#[cfg(rustradio_verif)]
+impl<T> ReadStream<T> {
+    /// (rpos, wpos, used, capacity, [(tag position, number of tags)]).
+    pub fn verif_state(&self) -> (usize, usize, usize, usize, Vec<(usize, usize)>) {
+        self.circ.verif_state()
+    }
+    /// Strong count of the shared buffer (no scheduling point).
+    pub fn verif_refcount(&self) -> usize {
+        Arc::strong_count(&self.circ)
+    }
+}
+#[cfg(rustradio_verif)]
+impl<T> WriteStream<T> {
+    /// (rpos, wpos, used, capacity, [(tag position, number of tags)]).
+    pub fn verif_state(&self) -> (usize, usize, usize, usize, Vec<(usize, usize)>) {
+        self.circ.verif_state()
+    }
+    /// Strong count of the shared buffer (no scheduling point).
+    pub fn verif_refcount(&self) -> usize {
+        Arc::strong_count(&self.circ)
+    }
+}
+#[cfg(rustradio_verif)]
+impl<T> NCReadStream<T> {
+    /// Number of queued packets.
+    pub fn verif_len(&self) -> usize {
+        self.q.0.lock().unwrap().len()
     }
 }
